@@ -77,8 +77,9 @@ def run(repo, chk):
     gc = Fn(repo, H3 + "_get_or_create_stream")
     pops = [c for c in gc.calls(suffix="pop") if "self._stream" in norm(c.func)]
     dels = [st for st in gc.stmts(lambda s: isinstance(s, ast.Delete))]
-    ok = all(any(a == ("stream.is_ended()", True) for a in gc.guard_atoms(c)) for c in pops) and not dels
-    chk.ob("R2b", "_get_or_create_stream deletes a stream only when is_ended()", ok and bool(pops), "", gc.loc(gc.node))
+    dels = [st for st in dels if "self._stream" in norm(st)]
+    ok = all(any(a == ("stream.is_ended()", True) for a in gc.guard_atoms(c)) for c in pops + dels)
+    chk.ob("R2b", "_get_or_create_stream deletes a stream only when is_ended()", ok and bool(pops + dels), "", gc.loc(gc.node))
     others = []
     for q in m.functions:
         if q.startswith("H3Connection.") and q != "H3Connection._get_or_create_stream":
